@@ -80,7 +80,9 @@ Definition rot_names : list string := map fst elim_rules.
 Definition mkcfg (raw1 raw2 : list string) : cfg :=
   Cfg (filter (fun n => mem n raw2) basis_2q_valid) (filter (fun n => mem n raw1) rot_names) (Nat.eqb (List.length raw1) 2).
 
-Definition parse_basis (b : basis_spec) : result (cfg * (string -> bool)) :=
+(* [listified]: the string branch rebinds basis = [basis], so that `gate.name in basis` is list membership (true);
+   otherwise it stays a Python substring test on the string (false) *)
+Definition parse_basis_gen (listified : bool) (b : basis_spec) : result (cfg * (string -> bool)) :=
   match b with
   | BList l =>
       let raw2 := filter (fun g => mem g basis_2q_valid) l in
@@ -91,9 +93,10 @@ Definition parse_basis (b : basis_spec) : result (cfg * (string -> bool)) :=
   | BStr s =>
       if mem s basis_2q_valid
       then Ok (mkcfg default_1q_str [s],
-               if str_basis_listified then (fun n => mem n [s]) else (fun n => substrb n s))  (* str: substring test *)
+               if listified then (fun n => mem n [s]) else (fun n => substrb n s))
       else Error                                                           (* ValueError *)
   end.
+Definition parse_basis : basis_spec -> result (cfg * (string -> bool)) := parse_basis_gen str_basis_listified.
 
 (* ---- stage 1: X/Y/Z substitution and _resolve_to_universal ------------------------------------------------------- *)
 Definition find_rule (nm : string) : option rule :=
@@ -137,8 +140,8 @@ Definition stage3 (c : cfg) (l : list mgate) : result (list mgate) :=
 (* ---- resolve_gates ----------------------------------------------------------------------------------------------- *)
 (* [to_temp]: the Pauli phase markers are appended to temp_resolved (true) or to qc_temp.gates (false).  In the latter
    case they end up in front of the two-qubit pass output, and are LOST when no pass runs (qc_temp.gates = temp_resolved). *)
-Definition resolve_gen (to_temp : bool) (b : basis_spec) (circ : list mgate) : result (list mgate) :=
-  rbind (parse_basis b) (fun ck =>
+Definition resolve_gen (to_temp listified : bool) (b : basis_spec) (circ : list mgate) : result (list mgate) :=
+  rbind (parse_basis_gen listified b) (fun ck =>
   let c := fst ck in
   rbind (rmapM (stage1 c (snd ck)) circ) (fun parts =>
   let temp := concat (map (fun p => ((if to_temp then fst p else []) ++ snd p)%list) parts) in
@@ -147,8 +150,8 @@ Definition resolve_gen (to_temp : bool) (b : basis_spec) (circ : list mgate) : r
          | Some _ => rbind (stage2 c temp) (fun q => Ok (markers ++ q)%list)
          | None => Ok temp
          end) (fun qc => stage3 c qc))).
-(* the code that exists: the destination of the markers is read off the source *)
-Definition resolve : basis_spec -> list mgate -> result (list mgate) := resolve_gen pauli_marker_to_temp.
+(* the code that exists: both structural flags are read off the source by the translator *)
+Definition resolve : basis_spec -> list mgate -> result (list mgate) := resolve_gen pauli_marker_to_temp str_basis_listified.
 
 (* circuits may also contain measurements: resolve_gates refuses them *)
 Inductive op := OpGate (g : mgate) | OpMeasure.
